@@ -111,6 +111,9 @@ def run_case(GroupBy, c, expected, observed, labels):
         else:
             r = api.call(lambda: getattr(gb, op)(values, mask=mask))
     want = {labels[g]: expected[g] for g in range(len(labels)) if observed[g]}
+    # a sum of ticks / integers that does not fit in 64 bits has no representable value: nothing is claimed about it
+    # (a positional mask that names a row 2^60 + 3 eight times gets there)
+    unrepresentable = {k for k, v in want.items() if op == "sum" and c["dt"] in ("m8", "M8", "i8") and v is not None and not -2**63 < int(v) < 2**63}
     if r[0] != "ok":
         return [dict(sig={**sig, "what": "raised", "exc": r[1]}, what=f"GroupBy.{op} raised: {r[2]}", observed=r[2], expected=str(want))]
     out = r[1]
@@ -126,7 +129,7 @@ def run_case(GroupBy, c, expected, observed, labels):
         viol.append(dict(sig={**sig, "what": "labels"}, what="labels reported differ from the labels having a selected row",
                          observed=str(sorted(got, key=str)), expected=str(sorted(want, key=str))))
     else:
-        bad = {k: (got[k], want[k]) for k in want if got[k] != want[k]}
+        bad = {k: (got[k], want[k]) for k in want if got[k] != want[k] and k not in unrepresentable}
         if bad:
             viol.append(dict(sig={**sig, "what": "value"}, what=f"GroupBy.{op} differs from the per-group definition at labels {sorted(bad, key=str)}",
                              observed=str({k: str(v[0]) for k, v in bad.items()}), expected=str({k: str(v[1]) for k, v in bad.items()})))
